@@ -307,7 +307,8 @@ def describe(tier):
         f"clients (get_*_app, and for single-segment identifiers and unknown prefixes also apps mounted by hand from get_flask_blueprint / get_fastapi_router and apps mounted under a URL prefix) x (every registered prefix and synonym + 2 unknown prefixes) x every identifier of 1..{3 if tier == 'quick' else 4} segments over "
         f"{SEGMENTS} joined by '/'; expected status/Location from the reference model; plus, per delimiter, the "
         "three apps side by side in one process queried alternately, before and after their live converters gain prefixes; distinct_nontrivial = redirected requests whose "
-        "identifier contains the delimiter",
+        "identifier contains the delimiter; further converters: framework paths, nested synonyms, http/https twins, and one served from a subclass overriding "
+        "standardize_identifier (identifiers the hook rewrites / rejects; expected Location = expand of the CURIE, hook included)",
         "bounds": {"segments": 3 if tier == "quick" else 4, "segment_alphabet": SEGMENTS},
         "exhaustive": True,
         "assumptions": ["URL-path-safe segments, no dot-segments, no empty segments (as quantified)", "in-process clients (werkzeug test client; a minimal raw ASGI client for FastAPI, because starlette TestClient cannot represent URN Locations) stand for the HTTP stack"],
